@@ -15,7 +15,7 @@ VARIABLES l, bad, drift
 
 HsGood(s)    == s.hs \in {"ok", "nofeature"}
 Feature(s)   == s.hs = "ok"
-GenLabelOK(s) == s.gen \in {"ok", "samepath", "samepath-dot", "abs", "nested"}   \* a complete, well-formed reply whose paths are acceptable alone
+GenLabelOK(s) == s.gen \in {"ok", "samepath", "samepath-dot", "samepath-same", "samepath-empty", "abs", "nested"}   \* a complete, well-formed reply whose paths are acceptable alone
 GenDies(s)   == s.gen \in {"trunc", "exit", "oversize"}
 
 S(e) == e.case.plugins
@@ -28,7 +28,7 @@ Gets(e, i) == AllGood(e) /\ Feature(S(e)[i]) /\ ~CoreFails(e)      \* receives a
 Dies(e, i) == Gets(e, i) /\ GenDies(S(e)[i])                       \* gone before the goodbye
 ByeSeen(e, i) == HsGood(S(e)[i]) /\ ~Dies(e, i)
 \* two generating plugins answering with the same (cleaned) path, or a plugin using a core path
-SamePathGroup(s) == IF s.gen \in {"samepath", "samepath-dot"} THEN "x" ELSE IF s.gen \in {"corepath", "corepath-dot", "corepath-slash", "corepath-abs"} THEN "core" ELSE "none"
+SamePathGroup(s) == IF s.gen \in {"samepath", "samepath-dot", "samepath-same", "samepath-empty"} THEN "x" ELSE IF s.gen \in {"corepath", "corepath-dot", "corepath-slash", "corepath-abs"} THEN "core" ELSE "none"
 Conflict(e) == \/ \E i, j \in 1..N(e) : i # j /\ Gets(e, i) /\ Gets(e, j) /\ SamePathGroup(S(e)[i]) = "x" /\ SamePathGroup(S(e)[j]) = "x"
                \/ e.mode = "cli" /\ \E i \in 1..N(e) : Gets(e, i) /\ SamePathGroup(S(e)[i]) = "core"
 PluginFailed(e, i) ==
